@@ -68,6 +68,12 @@ def _actions(module):
     return names - {'Op', 'MaxSteps', 'Len', 'UNCHANGED'}
 
 
+def _need(what, have, want):
+    missing = sorted(set(want) - set(have))
+    if missing:
+        raise RuntimeError('vacuity: {} never produced the outcome(s) {}'.format(what, missing))
+
+
 def _vacuity(rep, res, module, taken):
     """Vacuity guard on action coverage.  TLC's -coverage mode runs out of memory on these specs (cost
     model of the nested RECURSIVE operators), so the count is taken from the generated states themselves:
@@ -175,10 +181,19 @@ def run(rep):
     info = res.emitted[-1] if res.emitted else None
     if info is None:
         raise RuntimeError('UnitTable emitted nothing')
-    for row in info['rows']:
-        k = c20_num.py(row['key'])
-        rep.violation('units:{}:{}'.format(k, row['why']), 'live SI.units[{!r}] differs from the model table ({})'.format(k, row['why']),
-                      dict(row=[r for r in urows if r['key'] == row['key']][:1]))
+    # root-cause keys: a wrong unit taints its 19 prefixed forms, a wrong prefix taints every prefixed unit
+    badkeys = {c20_num.py(row['key']): row['why'] for row in info['rows']}
+    allkeys = {c20_num.py(r['key']) for r in urows}
+    for k, why in sorted(badkeys.items()):
+        base = k[1:] if len(k) > 1 and k[1:] in allkeys and k not in ('min', 'cd', 'mol', 'Pa', 'ha', 'day', 'au', 'kat', 'Gy', 'Hz', 'eV', 'Da') else None
+        if base is None:
+            rk = 'units:{}:{}'.format(k, why)
+        elif base in badkeys:
+            continue     # reported for the unit itself
+        else:
+            rk = 'units:prefix-{}:{}'.format(k[0], why)
+        rep.violation(rk, 'live SI.units[{!r}] differs from the model table ({})'.format(k, why),
+                      dict(row=[r for r in urows if c20_num.py(r['key']) == k][:1]))
     for k in info['missing']:
         rep.violation('units:{}:missing'.format(c20_num.py(k)), 'unit {!r} of the model table is not in the live SI.units'.format(c20_num.py(k)), None)
     if res.violated and not (info['rows'] or info['missing']):
@@ -198,6 +213,7 @@ def run(rep):
                 taken[e['act']] = taken.get(e['act'], 0) + 1
             taken['Absorb'] = res.generated - len(res.emitted)
             _vacuity(rep, res, 'DimMachine', taken)
+            _need('DimMachine', {e['out']['kind'] for e in res.emitted}, ['q', 'plain', 'bool', 'meta', 'reject', 'noteq', 'none', 'qopaque'])
         rep.add_tlc(res, exhaustive=exhaustive)
         r = c20_num.Replayer(rep, 'num') if fresh else replayer
         es = res.emitted
@@ -226,6 +242,11 @@ def run(rep):
             for e in res.emitted:
                 taken[names[e['kind']]] = taken.get(names[e['kind']], 0) + 1
             _vacuity(rep, res, 'UnitMachine', taken)
+            _need('UnitMachine', {(e['kind'], e['err'], e['ok']) for e in res.emitted},
+                  [('parse', '', True), ('parse', 'ValueError', True), ('format', '', True), ('format', '', False), ('format', 'DimensionError', False),
+                   ('format', 'ValueError', False), ('setattr', '', True), ('setattr', 'collision', False), ('setattr', 'already defined', False)])
+            _need('UnitMachine (nutils.unit)', {e['uerr'] for e in res.emitted if e['kind'] == 'parse'}, ['', 'ValueError'])
+            _need('UnitMachine (dimensionless strings)', {bool(e['pw']) for e in res.emitted if e['kind'] == 'parse' and not e['err']}, [True, False])
         rep.add_tlc(res, exhaustive=exhaustive)
         es = [e for e in res.emitted if e['kind'] in ('parse', 'format', 'setattr')]
         res.emitted, res.stdout = [], ''
@@ -260,6 +281,7 @@ def run(rep):
                 a = e['prog'][-1]['act']
                 taken[a] = taken.get(a, 0) + 1
             _vacuity(rep, res, 'DimFn', taken)
+            _need('DimFn', {e['prog'][-1]['out']['kind'] for e in res.emitted}, ['q', 'plain', 'reject', 'undef', 'dict', 'sample'])
         rep.add_tlc(res, exhaustive=exhaustive)
         es = res.emitted
         res.emitted, res.stdout = [], ''
